@@ -170,7 +170,9 @@ def run_case(case):
         if any(n in R.deps[n] for n in R.deps):
             labels.add("self-loop")
     if defects and not viols and not any(case.get("relwd", [])) and int(digest_of(case), 16) % 3 == 0:
-        viols += cli_side_effects(desc, defects)
+        # how the commands are invoked varies with the case (see project.Project)
+        styles = (None, {"plan": [1, 0, 2]}, None, {"plan": [2, 1], "obj": "analysis"}, {"plan": [0, 1], "wf_link": True})
+        viols += cli_side_effects(desc, defects, styles[int(digest_of(case), 16) // 3 % len(styles)])
         labels.add("cli-side-effects")
     if not defects and not viols and not any(case.get("relwd", [])) and int(digest_of(case), 16) % 2 == 0:
         viols += cli_valid(desc)
@@ -206,12 +208,12 @@ MSG_KIND = (("provided by targets", "multiple-providers"), ("depends on itself",
             ("does not exist and is not provided", "unresolved-input"))
 
 
-def cli_side_effects(desc, defects):
+def cli_side_effects(desc, defects, invoke=None):
     """On an invalid workflow every command exits non-zero, names a defect that applies, and changes nothing."""
     from vlib import project
 
     viols = []
-    with project.Project(desc, backend="slurm") as proj:
+    with project.Project(desc, backend="slurm", invoke=invoke) as proj:
         proj.set_files({p: t for p, t in desc["files"].items()})
         import os
 
@@ -219,11 +221,15 @@ def cli_side_effects(desc, defects):
         for fn in ("Gone.stdout", "Gone.stderr", desc["targets"][0]["name"] + ".stdout"):
             with open(proj.path(".gwf/logs/" + fn), "w") as f:
                 f.write("log of an earlier run\n")
+        first = desc["targets"][0]["name"]
         with open(proj.path(".gwf/slurm-backend-tracked.json"), "w") as f:
-            f.write("{}")
+            f.write('{"%s": "4242"}' % first)  # an earlier run left a job behind: a cancel would reach the scheduler
         before = proj.snapshot()
         for args in (["status"], ["run"], ["run", "--dry-run"], ["clean", "--all", "-f"], ["touch"], ["cancel", "-f"],
-                     ["info"], ["status", "-f", "summary"], ["run", desc["targets"][0]["name"]]):
+                     ["info"], ["status", "-f", "summary"], ["run", first],
+                     # the same commands restricted to a named target or a pattern
+                     ["cancel", first], ["cancel", first[:1] + "*"], ["touch", first], ["clean", first], ["status", first],
+                     ["info", first], ["clean", "--all", first[:1] + "*"]):
             r = proj.gwf(args, input="y\n")
             if r.code == 0:
                 viols.append(Violation({"kind": "command-succeeded-on-invalid-workflow", "cmd": args[0]},
